@@ -25,6 +25,8 @@ func runC20(ctx *core.Ctx) {
 	ctx.Rule("S3", "every exit answers: each return of the handler is preceded by a body write, http.NotFound or http.Error (the list branch answers NotFound when it printed nothing)", 5)
 	ctx.Rule("S5", "one file-name codec: readArchive names a stored version EscapePath(path) ('/' as '_') + '_' + EscapeVersion(version), each escape applied to its own parameter; readModList inverts it with UnescapePath / UnescapeVersion on the parts before and after the last \"_v\"", 2)
 	ctx.Rule("S6", "not stored means nil: on every return path of the archive-cache callback the value is nil unless the nearest dominating error test established a nil error; the handler answers 404 exactly for nil", 1)
+	ctx.Rule("S7", "zip cache key: the key given to the zip cache is the archive value that the cached computation reads", 1)
+	ctx.Rule("S8", "directory modules are served whole: in the directory walk a nil return that skips the file read is taken only for directories", 1)
 	ctx.Rule("S4", "cache users assert the type their callback returns (C10.K7) for zipCache and archiveCache", 2)
 	h := ctx.Need("S3", "goproxytest", "(*Server).handler")
 	ns := ctx.Need("S1", "goproxytest", "newServer")
@@ -488,6 +490,99 @@ func runC20(ctx *core.Ctx) {
 				}
 			}
 			ctx.Check(bad == "" && n > 0 && !ex.Overflow, "S6", "goproxytest.readArchive#nil-unless-found", cb.Pos(), "the cached value is non-nil only on paths where the lookup error is nil (%d return paths) %s", n, bad)
+		}
+	}
+	// ---- S7: the zip cache is keyed by the archive it packs
+	if h := p.Func("goproxytest", "(*Server).handler"); h != nil {
+		hg := graph(p, h)
+		n := 0
+		hg.Instrs(func(i ssa.Instruction) {
+			c, ok := i.(*ssa.Call)
+			if !ok || !strings.HasSuffix(ssax.CalleeName(&c.Call), "par.Cache).Do") || len(c.Call.Args) < 3 {
+				return
+			}
+			if !isFieldAddrOf("zipCache")(c.Call.Args[0]) {
+				return
+			}
+			n++
+			key := ssax.Strip(c.Call.Args[1])
+			if mi, isMI := key.(*ssa.MakeInterface); isMI {
+				key = ssax.Strip(mi.X)
+			}
+			var keyCell ssa.Value
+			if u, isU := key.(*ssa.UnOp); isU && u.Op == token.MUL {
+				keyCell = u.X
+			}
+			// the archive the callback reads: a captured *txtar.Archive
+			okKey := false
+			if mc, isMC := c.Call.Args[2].(*ssa.MakeClosure); isMC {
+				for _, b := range mc.Bindings {
+					if isNamed(b.Type(), txtarFile, "Archive") && (b == key || ssax.ResolveLoad(b) == key) {
+						okKey = true
+					}
+					if keyCell != nil && b == keyCell && isNamed(key.Type(), txtarFile, "Archive") {
+						okKey = true
+					}
+					if al, isAl := b.(*ssa.Alloc); isAl {
+						for _, r := range ssax.Referrers(al) {
+							if st, isSt := r.(*ssa.Store); isSt && st.Addr == ssa.Value(al) && st.Val == key && isNamed(key.Type(), txtarFile, "Archive") {
+								okKey = true
+							}
+						}
+					}
+				}
+			} else if isNamed(key.Type(), txtarFile, "Archive") {
+				okKey = true // a named callback: at least the key is an archive
+			}
+			ctx.Check(okKey, "S7", "goproxytest.handler#zip-key"+itoa(n), c.Pos(), "the zip cache is keyed by the very archive whose files the callback packs (a key such as the version string alone hands one module's zip to another module with the same version)")
+		})
+		if n == 0 {
+			ctx.Note("S7", "goproxytest.handler#zip-key", h.Pos(), "the handler does not use a zip cache")
+		}
+	}
+	// ---- S8: a stored directory module is served whole
+	if ra := p.Func("goproxytest", "(*Server).readArchive"); ra != nil {
+		n := 0
+		var walkers []*ssa.Function
+		var collect func(f *ssa.Function)
+		collect = func(f *ssa.Function) {
+			for _, a := range f.AnonFuncs {
+				walkers = append(walkers, a)
+				collect(a)
+			}
+		}
+		collect(ra)
+		for _, wf := range walkers {
+			wg := graph(p, wf)
+			reads := wg.Calls("os.ReadFile")
+			if len(reads) == 0 {
+				continue
+			}
+			// every nil return that does not read the file is the "this is a directory" skip
+			for _, r := range wg.Returns() {
+				rv := ssax.ReturnValues(r)
+				if len(rv) != 1 || !ssax.IsNil(rv[0]) {
+					continue
+				}
+				behind := false
+				for _, rd := range reads {
+					if wg.Dominates(rd, r) {
+						behind = true
+					}
+				}
+				if behind {
+					continue
+				}
+				n++
+				isDir := hasFact(wg.FactsAtInstr(r), true, func(v ssa.Value) bool {
+					c, ok := v.(*ssa.Call)
+					return ok && c.Call.IsInvoke() && c.Call.Method.Name() == "IsDir"
+				})
+				ctx.Check(isDir, "S8", "goproxytest.readArchive$walk#skip"+itoa(n), r.Pos(), "an entry of a stored directory is passed over only because it is a directory (any other filter - regular files only, say - drops symlinked files from .mod/.info/.zip while list still advertises the version)")
+			}
+		}
+		if n == 0 {
+			ctx.Note("S8", "goproxytest.readArchive$walk#skip", ra.Pos(), "no skipping return found in the directory walk")
 		}
 	}
 	// ---- S4 (reuse K7 logic by running the C10 user check restricted to goproxytest)
